@@ -6,7 +6,6 @@ import (
 	"io"
 	"net/http"
 	"net/http/cookiejar"
-	"net/http/httptest"
 	"net/url"
 	"strings"
 	"sync/atomic"
@@ -55,7 +54,7 @@ func (c *countingRT) RoundTrip(r *http.Request) (*http.Response, error) {
 func runOpDefaults(m *mon.M, c *OpDefaults) {
 	m.Eval(1)
 	var cookiesSeen []string
-	srv := httptest.NewServer(http.HandlerFunc(func(w http.ResponseWriter, r *http.Request) {
+	srv, lerr := startServer(http.HandlerFunc(func(w http.ResponseWriter, r *http.Request) {
 		cookiesSeen = append(cookiesSeen, r.Header.Get("Cookie"))
 		http.SetCookie(w, &http.Cookie{Name: "session", Value: "from-server", Path: "/"})
 		w.Header().Set("Content-Type", "application/json")
@@ -67,6 +66,11 @@ func runOpDefaults(m *mon.M, c *OpDefaults) {
 		}
 		_, _ = io.WriteString(w, `{}`)
 	}))
+	if lerr != nil {
+		// no loopback listener could be had (after retries): a condition of the machine; nothing was observed
+		m.Class("listen-failed")
+		return
+	}
 	defer srv.Close()
 	u, _ := url.Parse(srv.URL)
 	rtWide := &countingRT{next: http.DefaultTransport}
